@@ -12,7 +12,14 @@
 (*       uf[k+1]    representative / binding of internal variable k  (dict uf)         *)
 (*       reach[k+1] set of internal variables recorded as reachable  (dict reach)      *)
 (*       ic, isc    incr_ctxt / incr_sctxt (association lists name -> type)            *)
-(*       st         "ok" | "fail" ;  err : kind of the TypeInferenceException          *)
+(*       st         "ok" | "fail" (TypeInferenceException, kind in err) | "cyc" (a      *)
+(*                  binding that closes a cycle has been ACCEPTED: from there on unify  *)
+(*                  and the final substitution loop need not terminate)                 *)
+(*   opt      : [exact, avc]  parameters that make the model mirror the code present    *)
+(*       exact      union()'s occurs check follows the current bindings (exact          *)
+(*                  reachability); FALSE = the code as found: cached reach sets, which  *)
+(*                  are extended only for the entries redirected by a union             *)
+(*       avc        see VarStep                                                         *)
 EXTENDS HolTerms
 
 NoneT == <<"none">>
@@ -43,28 +50,39 @@ NumIv(s) == Len(s.uf)
 NewTypes(s, n) == [s EXCEPT !.uf = @ \o [i \in 1..n |-> Iv(Len(s.uf) + i - 1)], !.reach = @ \o [i \in 1..n |-> {}]]
 Rep(s, T) == IF IsIv(T) THEN s.uf[IvIdx(T) + 1] ELSE T
 
-\* union(T1, T2): T1 is an internal representative.  Only the entries EQUAL to T1 are redirected and only
-\* their reach sets are extended; entries whose binding merely CONTAINS T1 keep a stale reach set.
-Union(s, T1, T2) ==
+\* the internal variables reachable from T through the current bindings
+RECURSIVE ReachFrom(_,_,_)
+ReachFrom(uf, frontier, seen) ==
+  LET new == UNION { IF uf[k + 1] = Iv(k) THEN {} ELSE IvsIn(uf[k + 1]) : k \in frontier } \ seen
+  IN IF new = {} THEN seen ELSE ReachFrom(uf, new, seen \cup new)
+ExactReach(uf, T) == LET f == IvsIn(T) IN ReachFrom(uf, f, f)
+\* union(T1, T2): T1 is an internal representative.  As found (~opt.exact): only the entries EQUAL to T1 are
+\* redirected and only their reach sets are extended; entries whose binding merely CONTAINS T1 keep a stale reach
+\* set, so the test below can miss a cycle: the binding is accepted and the state becomes "cyc".
+Union(s, T1, T2, opt) ==
   LET nr  == IF IsIv(T2) THEN s.reach[IvIdx(T2) + 1]
              ELSE UNION { {v} \cup s.reach[v + 1] : v \in IvsIn(T2) }
+      enr == ExactReach(s.uf, T2)
       hit == { k \in 1..Len(s.uf) : s.uf[k] = T1 }
-  IN IF \E k \in hit : (k - 1) \in nr THEN Fail(s, "loop")
-     ELSE [s EXCEPT !.uf    = [k \in 1..Len(s.uf) |-> IF k \in hit THEN T2 ELSE s.uf[k]],
-                    !.reach = [k \in 1..Len(s.uf) |-> IF k \in hit THEN s.reach[k] \cup nr ELSE s.reach[k]]]
+      use == IF opt.exact THEN enr ELSE nr
+      s2  == [s EXCEPT !.uf    = [k \in 1..Len(s.uf) |-> IF k \in hit THEN T2 ELSE s.uf[k]],
+                       !.reach = [k \in 1..Len(s.uf) |-> IF k \in hit THEN s.reach[k] \cup use ELSE s.reach[k]]]
+  IN IF \E k \in hit : (k - 1) \in use THEN Fail(s, "loop")
+     ELSE IF \E k \in hit : (k - 1) \in enr THEN [s2 EXCEPT !.st = "cyc"]
+     ELSE s2
 
-RECURSIVE Unify(_,_,_), UnifyArgs(_,_,_,_)
-Unify(s, A1, A2) ==
+RECURSIVE Unify(_,_,_,_), UnifyArgs(_,_,_,_,_)
+Unify(s, A1, A2, opt) ==
   IF s.st # "ok" THEN s ELSE
   LET T1 == Rep(s, A1)  T2 == Rep(s, A2) IN
   IF T1[1] = "tc" /\ T2[1] = "tc" /\ T1[2] = T2[2] THEN
-       (IF Len(T1[3]) = Len(T2[3]) THEN UnifyArgs(s, T1[3], T2[3], 1) ELSE Fail(s, "arity"))
+       (IF Len(T1[3]) = Len(T2[3]) THEN UnifyArgs(s, T1[3], T2[3], 1, opt) ELSE Fail(s, "arity"))
   ELSE IF T1[1] = "tv" /\ T2[1] = "tv" /\ T1[2] = T2[2] THEN s
   ELSE IF T1[1] = "stv" /\ T2[1] = "stv" /\ T1[2] = T2[2] THEN s
-  ELSE IF IsIv(T1) THEN Union(s, T1, T2)
-  ELSE IF IsIv(T2) THEN Union(s, T2, T1)
+  ELSE IF IsIv(T1) THEN Union(s, T1, T2, opt)
+  ELSE IF IsIv(T2) THEN Union(s, T2, T1, opt)
   ELSE Fail(s, "unify")
-UnifyArgs(s, a1, a2, i) == IF s.st # "ok" \/ i > Len(a1) THEN s ELSE UnifyArgs(Unify(s, a1[i], a2[i]), a1, a2, i + 1)
+UnifyArgs(s, a1, a2, i, opt) == IF s.st # "ok" \/ i > Len(a1) THEN s ELSE UnifyArgs(Unify(s, a1[i], a2[i], opt), a1, a2, i + 1, opt)
 
 \* ---- binding graph of the internal variables (ghost) ----
 \* k -> the internal variables occurring in the binding of k (none for an unbound k); cyclic iff peeling off the
@@ -88,23 +106,23 @@ ResolveTerm(uf, t) == CASE t[1] \in {"svar","var","const"} -> <<t[1], t[2], Reso
 R(s, t, T) == [s |-> s, t |-> t, T |-> T]
 \* One occurrence of a (schematic) variable.  al = incr_ctxt / incr_sctxt, decl = the declared types.
 \* The occurrence takes its annotation, else the declared type, else the type recorded for the name, else a new
-\* internal variable (recorded).  avc = ALL occurrences of a name are tied together: the first one is recorded,
+\* internal variable (recorded).  opt.avc = ALL occurrences of a name are tied together: the first one is recorded,
 \* every later one is unified with the record (in the code as found only un-annotated, undeclared ones are).
-VarStep(t, s, al, decl, avc) ==
+VarStep(t, s, al, decl, opt) ==
   LET given  == t[3] # NoneT
       isdecl == ~given /\ t[2] \in Keys(decl)
       inal   == t[2] \in Keys(al)
       fresh  == ~given /\ ~isdecl /\ ~inal
       T  == IF given THEN t[3] ELSE IF isdecl THEN Lookup(decl, t[2]) ELSE IF inal THEN Lookup(al, t[2]) ELSE Iv(NumIv(s))
       s0 == IF fresh THEN NewTypes(s, 1) ELSE s
-  IN [s  |-> IF avc /\ inal THEN Unify(s0, T, Lookup(al, t[2])) ELSE s0,
+  IN [s  |-> IF opt.avc /\ inal THEN Unify(s0, T, Lookup(al, t[2]), opt) ELSE s0,
       T  |-> T,
-      al |-> IF (fresh \/ avc) /\ ~inal THEN Append(al, <<t[2], T>>) ELSE al]
+      al |-> IF (fresh \/ opt.avc) /\ ~inal THEN Append(al, <<t[2], T>>) ELSE al]
 RECURSIVE Infer(_,_,_,_,_,_)
-Infer(t, bd, s, ctx, sig, avc) ==
+Infer(t, bd, s, ctx, sig, opt) ==
   IF s.st # "ok" THEN R(s, t, NoneT) ELSE
-  CASE t[1] = "svar" -> LET v == VarStep(t, s, s.isc, ctx.svars, avc) IN R([v.s EXCEPT !.isc = v.al], <<"svar", t[2], v.T>>, v.T)
-    [] t[1] = "var" -> LET v == VarStep(t, s, s.ic, ctx.vars, avc) IN R([v.s EXCEPT !.ic = v.al], <<"var", t[2], v.T>>, v.T)
+  CASE t[1] = "svar" -> LET v == VarStep(t, s, s.isc, ctx.svars, opt) IN R([v.s EXCEPT !.isc = v.al], <<"svar", t[2], v.T>>, v.T)
+    [] t[1] = "var" -> LET v == VarStep(t, s, s.ic, ctx.vars, opt) IN R([v.s EXCEPT !.ic = v.al], <<"var", t[2], v.T>>, v.T)
     [] t[1] = "const" ->
          IF t[3] # NoneT THEN R(s, t, t[3])
          ELSE IF t[2] \notin Keys(sig) THEN R(Fail(s, "nosig"), t, NoneT)
@@ -114,17 +132,17 @@ Infer(t, bd, s, ctx, sig, avc) ==
                   T == TSubst(D, ti)
               IN R(NewTypes(s, Len(vs)), <<"const", t[2], T>>, T)
     [] t[1] = "comb" ->
-         LET rf == Infer(t[2], bd, s, ctx, sig, avc)
-             ra == Infer(t[3], bd, rf.s, ctx, sig, avc)
+         LET rf == Infer(t[2], bd, s, ctx, sig, opt)
+             ra == Infer(t[3], bd, rf.s, ctx, sig, opt)
              t2 == <<"comb", rf.t, ra.t>>
          IN IF ra.s.st # "ok" THEN R(ra.s, t2, NoneT)
             ELSE IF ~IsFun(rf.T) /\ ~IsIv(rf.T) THEN R(Fail(ra.s, "nofun"), t2, NoneT)
-            ELSE IF IsFun(rf.T) THEN R(Unify(ra.s, rf.T[3][1], ra.T), t2, rf.T[3][2])
-            ELSE LET resT == Iv(NumIv(ra.s)) IN R(Unify(NewTypes(ra.s, 1), rf.T, FunT(ra.T, resT)), t2, resT)
+            ELSE IF IsFun(rf.T) THEN R(Unify(ra.s, rf.T[3][1], ra.T, opt), t2, rf.T[3][2])
+            ELSE LET resT == Iv(NumIv(ra.s)) IN R(Unify(NewTypes(ra.s, 1), rf.T, FunT(ra.T, resT), opt), t2, resT)
     [] t[1] = "abs" ->
          LET fresh == t[2] = NoneT
              vT == IF fresh THEN Iv(NumIv(s)) ELSE t[2]
-             rb == Infer(t[3], <<vT>> \o bd, IF fresh THEN NewTypes(s, 1) ELSE s, ctx, sig, avc)
+             rb == Infer(t[3], <<vT>> \o bd, IF fresh THEN NewTypes(s, 1) ELSE s, ctx, sig, opt)
          IN R(rb.s, <<"abs", vT, rb.t>>, FunT(vT, rb.T))
     [] t[1] = "bound" -> IF t[2] < Len(bd) THEN R(s, t, bd[t[2] + 1]) ELSE R(Fail(s, "loose"), t, NoneT)
     [] OTHER -> R(Fail(s, "shape"), t, NoneT)
@@ -132,15 +150,14 @@ Infer(t, bd, s, ctx, sig, avc) ==
 \* ---- type_infer(t, forbid_internal): outcome record [kind, err, t] ----
 \*   kind "term"     : t is the returned term
 \*        "own"      : TypeInferenceException, err is its kind
-\*        "diverged" : the final substitution loop does not terminate (cyclic binding accepted)
-\* foc = the implementation performs an occurs check on the final binding before substituting;  avc: see VarStep
+\*        "diverged" : a cyclic binding was accepted (unify / the final substitution loop need not terminate)
 NoTerm == <<"none">>
+Opt(exact, avc) == [exact |-> exact, avc |-> avc]
 Unspecified(uf) == { k \in 1..Len(uf) : uf[k] = Iv(k - 1) }
-Outcome(skel, ctx, sig, foc, avc, forbid) ==
-  LET r == Infer(skel, <<>>, InitSt, ctx, sig, avc) IN
-  IF r.s.st # "ok" THEN [kind |-> "own", err |-> r.s.err, t |-> NoTerm]
-  ELSE IF foc /\ CyclicUf(r.s.uf) THEN [kind |-> "own", err |-> "loop", t |-> NoTerm]
+Outcome(skel, ctx, sig, opt, forbid) ==
+  LET r == Infer(skel, <<>>, InitSt, ctx, sig, opt) IN
+  IF r.s.st = "fail" THEN [kind |-> "own", err |-> r.s.err, t |-> NoTerm]
+  ELSE IF r.s.st = "cyc" THEN [kind |-> "diverged", err |-> "", t |-> NoTerm]
   ELSE IF forbid /\ Unspecified(r.s.uf) # {} THEN [kind |-> "own", err |-> "unspecified", t |-> NoTerm]
-  ELSE IF CyclicUf(r.s.uf) THEN [kind |-> "diverged", err |-> "", t |-> NoTerm]
   ELSE [kind |-> "term", err |-> "", t |-> ResolveTerm(r.s.uf, r.t)]
 =============================================================================
